@@ -274,8 +274,8 @@ PROPS = {
             {"mode": "latch", "engine": "txnsim", "quick": {"runs": 6000}, "thorough": {"runs": 150000}},
         ],
         "rule": ("direct-enum: run index = scenario of the complete enumeration (the enumeration ends by itself: 20688 scenarios quick, 80560 thorough tier), all step interleavings explored inside a run; "
-                 "direct: seeded scenarios, exploration cut at 3000 distinct states; sched: seeded schedules of parked goroutines; non-trivial = at least two transactions contend; distinct = canonical step histories"),
-        "real_vs_stub": "real code: internal/latch (latch.go, scheduler.go) with the verif yield hooks; nothing stubbed",
+                 "direct: seeded scenarios, exploration cut at 3000 distinct states; sched: seeded schedules of parked goroutines; non-trivial = at least two transactions contend; distinct = canonical step histories; mode latch: 3-7 mostly optimistic transactions of 1-2 stores that run with 1 / 2 / 8 / 256 latch slots over 2-4 keys (multi-key commits, stale refusals), region errors and topology changes in a quarter of the runs; judged: no transaction stays inside Commit once nothing is in flight and nothing was sent for five simulated minutes"),
+        "real_vs_stub": "modes direct*, sched (engine latchsim): real code internal/latch (latch.go, scheduler.go) with the verif yield hooks; nothing stubbed. Mode latch (engine txnsim): the scheduler as KVTxn.Commit uses it - real tikv.KVStore with EnableTxnLocalLatches, txnkv/transaction, internal/latch, the repository's mock TiKV; stub: transport, PD/TSO, clock (as for C01)",
         "assumptions": ["memory-model effects below the granularity of the yield points are out of scope"],
     },
     "C20": {
